@@ -24,19 +24,19 @@ GRACEFUL = ("INT", "TERM")
 TID = {"m": 0, "w1": 1, "w2": 2}
 TNAME = {v: k for k, v in TID.items()}
 # seeded defects of the model: (Variant, WaitEmpty under which it is a defect)
-DEFECTS = [("exit_ignores_rings", True), ("no_final_flush", True), ("no_once_regen", True), ("reraise_before_flush", True),
+DEFECTS = [("exit_until_nothing_cached", True), ("exit_ignores_rings", True), ("no_final_flush", True), ("no_once_regen", True), ("reraise_before_flush", True),
            ("exit0_for_fatal", True), ("spawn_unmasked", True), ("cleanup_nonempty", True),
            ("reraise_before_flush", False), ("graceful_exit_no_flush", False)]
 INVS = "StopOK RestartOK ExitOK SigOK DiskShape TypeOK"
 ALL_SIGS = '{"SEGV","ABRT","FPE","ILL","INT","TERM"}'
 
 
-def _cfg(name, workers, stmts, starts, sigs, soft=100, raises=1, variant="code", lifecyclers='{"m"}', sym=True, wait=True):
+def _cfg(name, workers, stmts, starts, sigs, soft=100, raises=1, variant="code", lifecyclers='{"m"}', sym=True, wait=True, grace=False):
     ws = "{" + ",".join(workers) + "}"
     text = ("SPECIFICATION Spec\nCONSTANTS\n Main = \"m\"\n Workers = %s\n Lifecyclers = %s\n MaxStmts = %d\n"
             " MaxStarts = %d\n Sigs = %s\n SoftLimit = %d\n MaxRaise = %d\n Variant = \"%s\"\n Export = FALSE\n"
-            " WaitEmpty = %s\nINVARIANTS %s\n%sCHECK_DEADLOCK TRUE\n"
-            % (ws, lifecyclers, stmts, starts, sigs, soft, raises, variant, "TRUE" if wait else "FALSE", INVS,
+            " WaitEmpty = %s\n Grace = %s\nINVARIANTS %s\n%sCHECK_DEADLOCK TRUE\n"
+            % (ws, lifecyclers, stmts, starts, sigs, soft, raises, variant, "TRUE" if wait else "FALSE", "TRUE" if grace else "FALSE", INVS,
                "SYMMETRY WorkerSymmetry\n" if sym and len(workers) > 1 else ""))
     return vlib.write_cfg(vlib.BUILD / "cfg" / (name + ".cfg"), text)
 
@@ -56,6 +56,8 @@ def model_check(ck, quick):
         runs.append(("MC_Life_q2", _cfg("MC_Life_q2", ["w1"], 2, 1, '{"SEGV","INT"}', soft=1, raises=2), False))
         runs.append(("MC_Life_qcov", _cfg("MC_Life_qcov", ["w1"], 1, 2, '{"SEGV","INT"}'), True))
         runs.append(("MC_Life_qnowait", _cfg("MC_Life_qnowait", ["w1"], 2, 2, '{"SEGV","INT"}', wait=False), False))
+        # a non-zero timestamp-ordering grace period: statements become readable only after time has passed (Age)
+        runs.append(("MC_Life_qgrace", _cfg("MC_Life_qgrace", ["w1"], 2, 1, '{"INT"}', grace=True), False))
     else:
         runs.append(("MC_Life_t1", _cfg("MC_Life_t1", ["w1"], 3, 2, ALL_SIGS), False))
         runs.append(("MC_Life_tcov", _cfg("MC_Life_tcov", ["w1"], 2, 2, '{"SEGV","INT"}'), True))
@@ -64,6 +66,7 @@ def model_check(ck, quick):
         runs.append(("MC_Life_t4", _cfg("MC_Life_t4", ["w1"], 2, 2, '{"SEGV","INT"}', lifecyclers='{"m","w1"}'), False))
         runs.append(("MC_Life_t5", _cfg("MC_Life_t5", ["w1", "w2"], 3, 1, "{}"), False))
         runs.append(("MC_Life_t6", _cfg("MC_Life_t6", ["w1"], 3, 2, ALL_SIGS, wait=False), False))
+        runs.append(("MC_Life_tgrace", _cfg("MC_Life_tgrace", ["w1"], 2, 2, '{"SEGV","INT"}', grace=True), False))
     cov = {}
     for name, cfg, coverage in runs:
         r = vlib.tlc_must("Life", cfg, coverage=coverage, timeout=150 if quick else 1500, keep_out=False)
@@ -81,7 +84,7 @@ def model_check(ck, quick):
     def one(vw):
         v, w = vw
         v = v if w else v + "@nowait"
-        cfg = _cfg("MC_Life_var_" + v, ["w1"], 2, 2, '{"SEGV","INT"}', variant=vw[0], wait=w)
+        cfg = _cfg("MC_Life_var_" + v, ["w1"], 2, 2, '{"SEGV","INT"}', variant=vw[0], wait=w, grace=(vw[0] == "exit_until_nothing_cached"))
         return v, vlib.tlc("Life", cfg, workers=4, timeout=300, heap="2g", keep_out=False)
     caught = {}
     with ThreadPoolExecutor(max_workers=4) as ex:
@@ -99,7 +102,7 @@ def model_check(ck, quick):
 def export_programs(ck, quick):
     text = ("SPECIFICATION SimSpec\nCONSTANTS\n Main = \"m\"\n Workers = {\"w1\",\"w2\"}\n Lifecyclers = {\"m\",\"w1\"}\n"
             " MaxStmts = 3\n MaxStarts = %d\n Sigs = %s\n SoftLimit = 100\n MaxRaise = 1\n Variant = \"code\"\n"
-            " Export = TRUE\n WaitEmpty = TRUE\nINVARIANTS %s\nACTION_CONSTRAINT ExportA SimThin\nCHECK_DEADLOCK FALSE\n"
+            " Export = TRUE\n WaitEmpty = TRUE\n Grace = FALSE\nINVARIANTS %s\nACTION_CONSTRAINT ExportA SimThin\nCHECK_DEADLOCK FALSE\n"
             % (2 if quick else 3, ALL_SIGS, INVS))
     cfg = vlib.write_cfg(vlib.BUILD / "cfg" / "Sim_Life.cfg", text)
     r = vlib.tlc_must("Life", cfg, simulate=600 if quick else 4000, depth=500, seed=ck.seed, deadlock=False,
